@@ -176,7 +176,11 @@ func canonRaw(v *ds.VMValue, seen map[any]bool, depth int) string {
 		if !ok || fd == nil {
 			return "F?"
 		}
-		return "F" + hx(fd.Name) + "/" + strconv.Itoa(len(fd.Params))
+		ps := make([]string, 0, len(fd.Params))
+		for _, p := range fd.Params {
+			ps = append(ps, hx(p))
+		}
+		return "F" + hx(fd.Name) + "(" + strings.Join(ps, ",") + ")" + hx(fd.Expr)
 	case ds.VMTypeNativeFunction:
 		fd, ok := v.Value.(*ds.NativeFunctionData)
 		if !ok || fd == nil {
@@ -188,9 +192,22 @@ func canonRaw(v *ds.VMValue, seen map[any]bool, depth int) string {
 		if !ok || cd == nil {
 			return "C?"
 		}
-		return "C" + hx(cd.Expr)
+		if cd.Attrs == nil {
+			return "C" + hx(cd.Expr)
+		}
+		var parts []string
+		cd.Attrs.Range(func(k string, val *ds.VMValue) bool {
+			parts = append(parts, hx(k)+"="+canonRaw(val, seen, depth+1))
+			return true
+		})
+		sort.Strings(parts)
+		return "C" + hx(cd.Expr) + "{" + strings.Join(parts, " ") + "}"
 	case ds.VMTypeNativeObject:
-		return "O"
+		od, ok := v.Value.(*ds.NativeObjectData)
+		if !ok || od == nil {
+			return "O?"
+		}
+		return "O" + hx(od.Name)
 	}
 	return "T" + strconv.Itoa(int(v.TypeId))
 }
